@@ -263,7 +263,7 @@ Proof.
   unfold step; destruct (enabled cf t o) eqn:En; [| assumption].
   destruct o; opn En.
   all: intros k; pose proof (F k) as Fk; unfold upd, set_sstate; eqb_all; cbn; try tauto; try congruence.
-  all: try (match goal with H : c_held (cl t ?c) = Some ?s |- _ => apply (o_c2s _ O) in H end); intuition congruence.
+  all: try (match goal with H : c_held (cl _ ?c) = Some ?s |- _ => apply (o_c2s _ O) in H end); intuition congruence.
 Qed.
 Lemma FreshS_run cf ops : FreshS (run cf ops).
 Proof.
@@ -282,7 +282,7 @@ Proof.
         end;
     cbn [cl cids sv sids creg sreg at_ andb txn_of_server qry_of_server];
     unfold upd, set_sstate; eqb_all; cbn; try lia.
-  all: try (destruct (F s En) as [A [B C]]; lia).
+  all: try (match goal with H : s_seen (sv _ ?x) = false |- _ => destruct (F x H) as [A [B C]] end; lia).
 Qed.
 
 Lemma server_counts cf ops s :
